@@ -310,6 +310,12 @@ def mk_bases(bases, btype):
     array (the skipped entries are 1, which halton() must reject if it looked at them), or a read-only array."""
     if btype == "int32":
         return np.array(bases, dtype=np.int32)
+    if btype in ("uint8", "int8", "int16", "uint16"):
+        # compact integer arrays hold the bases themselves but NOT the indices (which reach 2^16 + 2^12): the digits must be
+        # computed in a type that holds the index; bases that do not fit the type fall back to int64
+        dt = np.dtype(btype)
+        if all(0 <= b <= np.iinfo(dt).max for b in bases):
+            return np.array(bases, dtype=dt)
     if btype == "view":
         a = np.ones(2 * len(bases), dtype=np.int64)
         a[::2] = np.array(bases, dtype=np.int64)
@@ -1100,7 +1106,7 @@ def gen_hdirect_v4(rng, primes):
     """Direct calls with the arguments in other representations (int32 / non-contiguous / read-only array of bases, numpy
     integers for the size and the start), a larger batch, and a second call after the first (aliasing, memoisation)."""
     c = gen_hdirect(rng, primes)
-    c["btype"] = rng.choice([None, "int32", "view", "readonly"])
+    c["btype"] = rng.choice([None, "int32", "view", "readonly", "uint8", "int8", "int16", "uint16"])
     c["ktype"] = rng.choice(KTYPES)
     c["stype"] = rng.choice(KTYPES)
     if rng.below(8) == 0 and valid_hdirect(c):
